@@ -336,7 +336,7 @@ def comp_codes(scat):
 
 def comp_expr(spec, codes):
     return ("zpairs_eqb (map (fun c => match c with Leaf _ => ((-1)%%Z, 1%%Z) | Node k _ => (k, Z.of_nat (List.length (leaves c))) end) "
-            "(component_list std_isinst %s)) %s" % (tree_lit(spec["tree"]),
+            "(component_list std_isinst (%s : tree (leaf qv)))) %s" % (tree_lit(spec["tree"]),
                                                     listlit(["(%s, %s)" % (zlit(a), zlit(b)) for a, b in codes])))
 
 
@@ -495,7 +495,14 @@ def stage_mock(ctx):
     for k in range(ctx.n(260, 3000)):
         malformed = rng.random() < 0.18
         spec = gen_mock_spec(rng, malformed)
-        obs, osum, info = run_mock_case(spec)
+        try:
+            obs, osum, info = run_mock_case(spec)
+        except Exception as e:  # noqa - an exception class the model does not know: report this case, go on
+            ctx.explored += 1
+            ctx.violation("mock:unexpected:%s" % type(e).__name__,
+                          "calc_field with the mock theory raised %s (%s) where the model expects a result or one of "
+                          "the modelled error classes" % (type(e).__name__, str(e)[:150]), dict(kind="mock-crash", spec=spec))
+            continue
         e1, e2 = mock_exprs(spec_for_model(spec), obs, osum, twopi)
         cases = [("calls", e1), ("sum", e2)]
         if "node" in spec["tree"]:
@@ -929,6 +936,14 @@ def replay(ctx, data):
             ctx.violation("corr-eval-error", "model evaluation failed: " + e[:300], dict(kind="coq-error", log=e), nofail=True)
         if mism:
             ctx.disagree(data["key"], data["what"], d)
+    elif kind == "mock-crash":
+        try:
+            run_mock_case(d["spec"])
+            print("replay: no exception any more")
+        except Exception as e:  # noqa
+            print("replay: raised %s: %s" % (type(e).__name__, e))
+            ctx.violation(data["key"], data["what"], d)
+        ctx.explored += 1
     else:
         print("replay: re-running the whole check with the recorded seed")
         ctx.seed = data.get("seed", ctx.seed)
